@@ -5,9 +5,11 @@ Import ListNotations.
 Require Import TL.Model.Core TL.Model.CoreTables TL.Model.Build TL.Proofs.CoreMono TL.Proofs.BuildLemmas
   TL.Proofs.BuildSemLemmas TL.Props.C05.
 
-(* Building terminates and succeeds for every class environment, cyclic or not: the factory loop is a
-   structural fold over the node order (no fuel, no recursion into referenced types -- cycles are cut by
-   delayed proxies), and along any order accepted by order_ok every constructor finds its members. *)
+(* Building terminates and succeeds for every environment -- classes AND alias objects (E n = NType v: recursive
+   `type N = ...` statements and string-valued TypeAliasType objects), cyclic or not: the factory loop is a
+   structural fold over the node order (build_root has no fuel argument: no recursion into referenced types --
+   cycles are cut by delayed proxies, see C07_string_alias_lazy for the alias case), and along any order accepted
+   by order_ok every constructor finds its members. *)
 Theorem C07_build_total :
   forall (E : env) (dir : bool) (noop_leaf : nat -> bool) (orders : ty -> option (list node)) (T : ty),
     orders_contract E dir noop_leaf orders ->
@@ -19,14 +21,39 @@ Proof.
   apply (build_routes E dir noop_leaf orders T pre root Hns Hord). rewrite Hroot. apply norm_evaluate.
 Qed.
 
+(* What makes construction terminate for a recursive STRING-VALUED alias is the lazy proxy, and only that.  Whatever
+   the text of the alias says (v is the reference the text stands for; nothing is assumed about what it evaluates
+   to -- it may mention the alias itself, other aliases, classes that mention the alias):
+     - inspection.unwrap stops at the reference: unwrap E (TName n) = v, the body is not looked at;
+     - the constructor chosen for that unwrapped form is the proxy, in every context (no member lookup at all);
+     - hence the one-node order graph.static_order returns for the alias (type = the alias object, unwrapped = the
+       reference) satisfies the contract trivially, and the routine built for the alias IS the proxy for v;
+     - the body is built when the proxy is CALLED: run (S fuel) (RDelayed v) x = build_root v, then run with fuel
+       -- through the public factory, static_order(ForwardRef) evaluating the root first (build_root: orders (evaluate v)).
+   (A PEP 695 alias `type N = body` is different: its value is peeled by unwrap and its node is expanded like the
+   body; there the revisit of N is what is deferred -- example C07_pep695_alias below.) *)
+Theorem C07_string_alias_lazy :
+  forall (E : env) (dir : bool) (noop_leaf : nat -> bool) (n : nat) (v : ty),
+    E n = Some (NType v) -> is_ref v = true ->
+    let nd := {| ntype := TName n; nunw := v; ncyc := false |} in
+    unwrap E (TName n) = v /\
+    (forall cx, construct E dir cx v = Ok (RDelayed v)) /\
+    order_ok E dir noop_leaf [] [nd] = true /\
+    (forall orders, orders (TName n) = Some [nd] -> build_root E orders dir (TName n) = Ok (RDelayed v)) /\
+    (forall rt orders fuel x,
+       run rt E orders dir (S fuel) (RDelayed v) x = bind (build_root E orders dir v) (fun r => run rt E orders dir fuel r x)).
+Proof. exact string_alias_lazy. Qed.
+
 (* Every level is converted, none is passed through raw: in a routine that routes an annotation the
    no-op routine occurs only where the annotation itself is a pass-through leaf (Any); every other
    member slot -- at any depth, also behind a delayed proxy (see C05_unmarshal, which resolves proxies
    through the factory) -- holds the routine of the member's own annotation. *)
 Theorem C07_no_raw_level :
   forall (E : env) (dir : bool) (noop_leaf : nat -> bool) (a : ty),
-    routes' E dir noop_leaf RNoOp a -> exists s, a = TLeaf s /\ noop_leaf s = true.
-Proof. intros E dir noop_leaf a H. inversion H; subst. exists s. split; [reflexivity|assumption]. Qed.
+    routes' E dir noop_leaf RNoOp a ->
+    exists s, aeq E a (TLeaf s) /\ noop_leaf s = true /\ (noalias E -> a = TLeaf s).
+Proof. intros E dir noop_leaf a H. destruct (routes'_noop E dir noop_leaf a H) as [s [Ha Hs]].
+  exists s. split; [exact Ha|]. split; [exact Hs|]. intros Hna. exact (aeq_noalias E _ _ Hna Ha). Qed.
 
 (* Values of EVERY nesting depth: the conversion through the mechanism is the member-wise reference
    semantics for all inputs x (C05_unmarshal / C05_marshal quantify over all pv, hence all depths);
@@ -64,6 +91,148 @@ Example C07_contract_satisfiable :
   order_ok exE false (fun _ => false) [] (exOrder ++ [exRoot]) = true.
 Proof. vm_compute. split; reflexivity. Qed.
 
+(* ---- non-vacuity for environments WITH recursive aliases -------------------------------------------------------- *)
+(* a toy runtime: leaf 0 = int ("7" -> 7, written PAtom 7 -> PAtom 70), leaf 1 = str (the text "k" = PAtom 20),
+   None = PAtom 9; scalars are not iterable; the unions swallow every exception kind *)
+Definition aRt : runtime :=
+  {| leaf_u := fun s x => match s, x with
+                 | 0, PAtom 7 => Ok (PAtom 70) | 0, PAtom 70 => Ok (PAtom 70) | 1, PAtom 20 => Ok (PAtom 20)
+                 | _, _ => Raise EValue end;
+     leaf_m := fun s x => match s, x with 0, PAtom 70 => Ok (PAtom 70) | 1, PAtom 20 => Ok (PAtom 20) | _, _ => Raise EValue end;
+     none_u := fun x => match x with PAtom 9 => Ok x | _ => Raise EValue end;
+     load_scalar := fun x => Ok x; values_scalar := fun _ => Raise EType; items_scalar := fun _ => Raise EType;
+     unpack_scalar := fun _ => Raise EType; pairlike_scalar := fun _ => false; index := fun i => PAtom (100 + i);
+     unhashable_class := fun _ => false; atom_eq := fun _ _ => false; none := PAtom 9; suppressed := fun _ => true |}.
+Definition plain (t : ty) : node := {| ntype := t; nunw := t; ncyc := false |}.
+
+(* (1) Json = TypeAliasType("Json", "dict[str, Json] | list[Json] | int | str | None")        (N5; string-valued)
+   The two node orders are the ones graph.static_order returns on /repo: for the alias object ONE node (unwrapped =
+   the reference to the text), and for that reference -- evaluated first -- the union with the alias node met twice,
+   once expanded (again a single proxy node) and once deferred. *)
+Definition jBody : ty := TUnion [TMap KDict (TLeaf 1) (TName 5); TSeq KList (TName 5); TLeaf 0; TLeaf 1; TNone].
+Definition jE : env := fun n => match n with 5 => Some (NType (TRefTo jBody)) | _ => None end.
+Definition jNode (c : bool) : node := {| ntype := TName 5; nunw := TRefTo jBody; ncyc := c |}.
+Definition jPre : list node :=
+  [plain (TLeaf 0); plain (TLeaf 1); plain TNone; jNode false; jNode true;
+   plain (TMap KDict (TLeaf 1) (TName 5)); plain (TSeq KList (TName 5))].
+Definition jOrders (t : ty) : option (list node) :=
+  if ty_eqb t (TName 5) then Some ([] ++ [jNode false]) else if ty_eqb t jBody then Some (jPre ++ [plain jBody]) else None.
+(* the hypotheses of C07_build_total / C07_all_depths hold of this environment, both directions *)
+Example C07_json_contract : forall dir, orders_contract jE dir (fun _ => false) jOrders.
+Proof. intros dir t ns H. unfold jOrders in H.
+  destruct (ty_eqb t (TName 5)) eqn:E1.
+  - apply ty_eqb_eq in E1. subst t. injection H as <-. exists [], (jNode false).
+    split; [reflexivity|]. split; [destruct dir; vm_compute; reflexivity|reflexivity].
+  - destruct (ty_eqb t jBody) eqn:E2; [|discriminate H]. apply ty_eqb_eq in E2. subst t. injection H as <-.
+    exists jPre, (plain jBody). split; [reflexivity|]. split; [destruct dir; vm_compute; reflexivity|reflexivity]. Qed.
+(* what is built: a proxy for the alias; the union with a proxy at each recursive position when the proxy is resolved *)
+Example C07_json_routines :
+  build_root jE jOrders true (TName 5) = Ok (RDelayed (TRefTo jBody)) /\
+  build_root jE jOrders true (TRefTo jBody)
+  = Ok (RUnion true [RNone; RMap KDict (RLeaf 1) (RDelayed (TName 5)); RSeq KList (RDelayed (TName 5)); RLeaf 0; RLeaf 1]).
+Proof. vm_compute. split; reflexivity. Qed.
+(* a value nested to depth 3 ({"k": [{"k": "7"}, None]}) is converted at every level, both directions, and the
+   mechanism agrees with the reference semantics *)
+Definition jv (leaf : pv) : pv := PDict KDict [(PAtom 20, PSeq KList [PDict KDict [(PAtom 20, leaf)]; PAtom 9])].
+Example C07_json_depth3 :
+  api_call aRt jE jOrders true 40 (TName 5) (jv (PAtom 7)) = Ok (jv (PAtom 70)) /\
+  unm aRt jE 40 (TName 5) (jv (PAtom 7)) = Ok (jv (PAtom 70)) /\
+  api_call aRt jE jOrders false 40 (TName 5) (jv (PAtom 70)) = Ok (jv (PAtom 70)) /\
+  mar aRt jE 40 (TName 5) (jv (PAtom 70)) = Ok (jv (PAtom 70)).
+Proof. vm_compute. repeat split. Qed.
+(* ... and C07_all_depths applies: for EVERY input and fuel the mechanism's terminal result is the reference semantics' *)
+Example C07_json_all_depths : forall (fuel : nat) (x : pv),
+  done (api_call aRt jE jOrders true fuel (TName 5) x) = true ->
+  exists m, forall m', m' >= m -> unm aRt jE m' (TName 5) x = api_call aRt jE jOrders true fuel (TName 5) x.
+Proof. intros fuel x. apply (C07_all_depths aRt jE (fun _ => false) jOrders (C07_json_contract true) (C07_json_contract false)); discriminate. Qed.
+
+(* (2) class / alias mutual recursion:  A = TypeAliasType("A", "list[C] | None")  (N6);  class C: v: int; a: A  (N2) *)
+Definition aBody : ty := TUnion [TSeq KList (TName 2); TNone].
+Definition cE : env := fun n => match n with
+  | 6 => Some (NType (TRefTo aBody))
+  | 2 => Some (NClass {| cflavour := FDataclass; cfields := [ {| fname := 0; fty := TLeaf 0; fdefault := None |};
+                                                              {| fname := 1; fty := TName 6; fdefault := None |} ]; crequired := [] |})
+  | _ => None end.
+Definition aNode : node := {| ntype := TName 6; nunw := TRefTo aBody; ncyc := false |}.
+Definition cOrders (t : ty) : option (list node) :=
+  if ty_eqb t (TName 2) then Some ([plain (TLeaf 0); aNode] ++ [plain (TName 2)])
+  else if ty_eqb t aBody then Some ([plain TNone; plain (TLeaf 0); aNode; plain (TName 2); plain (TSeq KList (TName 2))] ++ [plain aBody])
+  else if ty_eqb t (TName 6) then Some ([] ++ [aNode]) else None.
+Example C07_class_alias_contract : forall dir, orders_contract cE dir (fun _ => false) cOrders.
+Proof. intros dir t ns H. unfold cOrders in H.
+  destruct (ty_eqb t (TName 2)) eqn:E1.
+  { apply ty_eqb_eq in E1. subst t. injection H as <-. exists [plain (TLeaf 0); aNode], (plain (TName 2)).
+    split; [reflexivity|]. split; [destruct dir; vm_compute; reflexivity|reflexivity]. }
+  destruct (ty_eqb t aBody) eqn:E2.
+  { apply ty_eqb_eq in E2. subst t. injection H as <-.
+    exists [plain TNone; plain (TLeaf 0); aNode; plain (TName 2); plain (TSeq KList (TName 2))], (plain aBody).
+    split; [reflexivity|]. split; [destruct dir; vm_compute; reflexivity|reflexivity]. }
+  destruct (ty_eqb t (TName 6)) eqn:E3; [|discriminate H].
+  apply ty_eqb_eq in E3. subst t. injection H as <-. exists [], aNode.
+  split; [reflexivity|]. split; [destruct dir; vm_compute; reflexivity|reflexivity]. Qed.
+Definition cw (v a : pv) : pv := PDict KDict [(PKey 0, v); (PKey 1, a)].
+Definition co (v a : pv) : pv := PObj 2 [(0, v); (1, a)].
+Example C07_class_alias_depth3 :
+  build_root cE cOrders true (TName 2) = Ok (RStruct 2 [(0, RLeaf 0); (1, RDelayed (TRefTo aBody))]) /\
+  api_call aRt cE cOrders true 40 (TName 2) (cw (PAtom 7) (PSeq KList [cw (PAtom 7) (PSeq KList [cw (PAtom 7) (PAtom 9)])]))
+  = Ok (co (PAtom 70) (PSeq KList [co (PAtom 70) (PSeq KList [co (PAtom 70) (PAtom 9)])])) /\
+  api_call aRt cE cOrders false 40 (TName 2) (co (PAtom 70) (PSeq KList [co (PAtom 70) (PSeq KList [co (PAtom 70) (PAtom 9)])]))
+  = Ok (cw (PAtom 70) (PSeq KList [cw (PAtom 70) (PSeq KList [cw (PAtom 70) (PAtom 9)])])).
+Proof. vm_compute. repeat split. Qed.
+
+(* (3) a PEP 695 alias:  type PJ = dict[str, PJ] | list[PJ] | int | None  (N8; the value is the union itself).
+   unwrap peels the alias object, its node is expanded like the union and the REVISIT of PJ is the deferred node
+   (same type, same unwrapped form, cyclic); the order is the one observed on /repo. *)
+Definition pBody : ty := TUnion [TMap KDict (TLeaf 1) (TName 8); TSeq KList (TName 8); TLeaf 0; TNone].
+Definition pE : env := fun n => match n with 8 => Some (NType pBody) | _ => None end.
+Definition pNode (c : bool) : node := {| ntype := TName 8; nunw := pBody; ncyc := c |}.
+Definition pOrders (t : ty) : option (list node) :=
+  if ty_eqb t (TName 8)
+  then Some ([plain (TLeaf 0); plain TNone; plain (TLeaf 1); pNode true; plain (TMap KDict (TLeaf 1) (TName 8));
+              plain (TSeq KList (TName 8))] ++ [pNode false])
+  else None.
+Example C07_pep695_contract : forall dir, orders_contract pE dir (fun _ => false) pOrders.
+Proof. intros dir t ns H. unfold pOrders in H.
+  destruct (ty_eqb t (TName 8)) eqn:E1; [|discriminate H].
+  apply ty_eqb_eq in E1. subst t. injection H as <-.
+  exists [plain (TLeaf 0); plain TNone; plain (TLeaf 1); pNode true; plain (TMap KDict (TLeaf 1) (TName 8));
+          plain (TSeq KList (TName 8))], (pNode false).
+  split; [reflexivity|]. split; [destruct dir; vm_compute; reflexivity|reflexivity]. Qed.
+Example C07_pep695_alias :
+  unwrap pE (TName 8) = pBody /\
+  build_root pE pOrders true (TName 8)
+  = Ok (RUnion true [RNone; RMap KDict (RLeaf 1) (RDelayed (TName 8)); RSeq KList (RDelayed (TName 8)); RLeaf 0]) /\
+  api_call aRt pE pOrders true 40 (TName 8) (jv (PAtom 7)) = Ok (jv (PAtom 70)) /\
+  unm aRt pE 40 (TName 8) (jv (PAtom 7)) = Ok (jv (PAtom 70)) /\
+  api_call aRt pE pOrders false 40 (TName 8) (jv (PAtom 70)) = Ok (jv (PAtom 70)).
+Proof. vm_compute. repeat split. Qed.
+
+(* what the environment-aware unwrap is needed for: with the structural unwrap of the old model (unwrap_s: every named
+   object is a class) the alias node is not acceptable -- the observed unwrapped form is not what the model unwraps to *)
+Example C07_alias_needs_env :
+  unwrap_s (TName 5) = TName 5 /\ unwrap jE (TName 5) = TRefTo jBody /\
+  order_ok (fun _ => None) true (fun _ => false) [] [jNode false] = false /\
+  (* a cycle of value aliases (`type A = B; type B = A`): the code's unwrap loop does not terminate; the model gives
+     up after alias_hops alias objects and no order containing such a node is accepted *)
+  (let loopE : env := fun n => match n with 0 => Some (NType (TName 1)) | 1 => Some (NType (TName 0)) | _ => None end in
+   unwrap loopE (TName 0) = TName 0 /\
+   order_ok loopE true (fun _ => false) [] [{| ntype := TName 0; nunw := TName 0; ncyc := false |}] = false).
+Proof. vm_compute. repeat split. Qed.
+
+(* the deferred (cyclic) node of an alias object, in the three shapes graph.py produces / could produce: deferred as
+   itself (type = the alias, unwrapped = the reference to its text), deferred BY NAME (a string alias whose text has no
+   '[' is not "generic" for graph.py: a revisit becomes (ForwardRef('N'), forwardref(unwrap N)) -- observed on /repo for
+   N0 = TypeAliasType('N0', 'N1 | None') met twice in one class) -- both acceptable: the two keys have one head normal
+   form through the alias objects; a second key that stands for something else is not *)
+Example C07_deferred_alias_nodes :
+  let ok n := node_ok jE true (fun _ => false) [] n in
+  ok {| ntype := TName 5; nunw := TRefTo jBody; ncyc := true |} = true /\
+  ok {| ntype := TRef 5; nunw := TRefTo jBody; ncyc := true |} = true /\
+  ok {| ntype := TRef 5; nunw := TRefLeaf 3; ncyc := true |} = false /\
+  node_ok pE true (fun _ => false) [] {| ntype := TName 8; nunw := pBody; ncyc := true |} = true.
+Proof. vm_compute. repeat split. Qed.
+
 Print Assumptions C07_build_total.
+Print Assumptions C07_string_alias_lazy.
 Print Assumptions C07_no_raw_level.
 Print Assumptions C07_all_depths.
